@@ -67,9 +67,10 @@ pub fn run_case(
     mk: &dyn Fn() -> Box<dyn Subject>,
     next_op: &mut dyn FnMut(usize, &Ints) -> Option<Ints>,
     tag: &dyn Fn(&[i128]) -> String,
-) {
+) -> Option<Ints> {
     ledger_reset();
     alloc::tab_reset();
+    let qmark = alloc::q_mark();
     let tracked = |f: &mut dyn FnMut()| {
         alloc::track(true);
         let r = catch_unwind(AssertUnwindSafe(|| f()));
@@ -84,7 +85,7 @@ pub fn run_case(
             writeln!(t.out, "C {} {} {}", id, kind, join(cfg)).unwrap();
             writeln!(t.out, "O 98 | -1000 | 0 | 0 0 0 0 | ").unwrap();
             t.panics += 1;
-            return;
+            return None;
         }
     };
     t.cases += 1;
@@ -140,12 +141,13 @@ pub fn run_case(
                 if t.samples.len() < 3 {
                     t.samples.push(sample);
                 }
-                return;
+                return None;
             }
         }
     }
     // final drop of the cache: everything retained must be released exactly once
     let mut subj = Some(subj);
+    let final_snap = snap.clone();
     drop(snap);
     let r = tracked(&mut || drop(subj.take()));
     let (dk, dv, dd, cb) = ledger_drain();
@@ -155,7 +157,7 @@ pub fn run_case(
     } else {
         alloc::tracked_blocks()
     };
-    let poison = alloc::scan_quarantine();
+    let poison = alloc::scan_quarantine(qmark);
     match r {
         Ok(()) => writeln!(
             t.out,
@@ -177,6 +179,59 @@ pub fn run_case(
     if t.samples.len() < 3 {
         t.samples.push(sample);
     }
+    Some(final_snap)
+}
+
+/// Breadth-first closure of the reachable states of a small configuration: for every state
+/// reached (identified by its snapshot) and every operation of `alphabet`, the shortest
+/// history reaching the state followed by that operation is run as one case.
+pub fn bfs(
+    t: &mut Trace,
+    idp: &str,
+    kind: u32,
+    cfg: &[i128],
+    meta: &str,
+    mk: &dyn Fn() -> Box<dyn Subject>,
+    alphabet: &[Ints],
+    max_states: usize,
+    shard: (u64, u64),
+    tag: &dyn Fn(&[i128]) -> String,
+) -> usize {
+    use std::collections::{HashSet, VecDeque};
+    let mut seen: HashSet<Ints> = HashSet::new();
+    let mut queue: VecDeque<Vec<Ints>> = VecDeque::new();
+    // the initial state
+    {
+        let mut sink = Trace::create("/dev/null");
+        if let Some(s0) = run_case(&mut sink, "init", kind, cfg, meta, mk, &mut scripted(vec![]), tag) {
+            seen.insert(s0);
+            queue.push_back(vec![]);
+        }
+    }
+    let mut n = 0u64;
+    let mut sink = Trace::create("/dev/null");
+    while let Some(h) = queue.pop_front() {
+        for o in alphabet {
+            let mut ops = h.clone();
+            ops.push(o.clone());
+            n += 1;
+            // every shard explores the whole space (state discovery needs all cases) but only
+            // writes its own share of the cases
+            let mine = n % shard.1 == shard.0;
+            let id = format!("{}-b{}", idp, n);
+            let fin = if mine {
+                run_case(t, &id, kind, cfg, meta, mk, &mut scripted(ops.clone()), tag)
+            } else {
+                run_case(&mut sink, &id, kind, cfg, meta, mk, &mut scripted(ops.clone()), tag)
+            };
+            if let Some(fs) = fin {
+                if seen.len() < max_states && seen.insert(fs) {
+                    queue.push_back(ops);
+                }
+            }
+        }
+    }
+    seen.len()
 }
 
 /// A fixed list of operations as a `next_op` closure.
